@@ -401,6 +401,7 @@ class Shared:
         self.loops = []
         self.asked = []        # (value of the test, node, decision)
         self.counter = 0
+        self.visits = {}
         self.loopstack = []
         self.modconst = {}
         self.inits = []        # (buffer name, value it was (re)bound to, statement) in evaluation order
@@ -410,6 +411,14 @@ class Shared:
     def fresh(self):
         self.counter += 1
         return self.counter
+
+    def tag(self, node):
+        """a name for what a node creates that does not depend on the regime: its position and how often it was reached (the name is
+        an identity inside one evaluation, it is never compared with anything outside)"""
+        k = (getattr(node, "lineno", 0), getattr(node, "col_offset", 0), id(node))
+        n = self.visits.get(k, 0)
+        self.visits[k] = n + 1
+        return f"{k[0]}.{k[1]}" + (f".{n}" if n else "")
 
 
 def helpers(ctx, rel, exclude=()):
@@ -447,6 +456,7 @@ class GeomEval(AutoEvaluator):
         self.skip = None
         self.raised = False
         self.nested = set()
+        self.gen = {}
         self.locals_ = set()
         if fn is not None:
             if id(fn) not in _FN_CACHE:
@@ -508,7 +518,8 @@ class GeomEval(AutoEvaluator):
         iv = self.env.get(f"<init:{name}>")
         if iv is not None and ident(iv) is not None:
             return iv
-        return F.sym(name)
+        g = self.gen.get(name)
+        return F.sym(f"{name}#{g}") if g else F.sym(name)      # every (re)binding of the name is an array of its own
 
     def _bufname(self, name):
         return ident(self._buf_value(name))
@@ -814,7 +825,7 @@ class GeomEval(AutoEvaluator):
             return map_value(safe, v)
         if name in ("np.zeros", "np.zeros_like", "np.empty", "np.empty_like"):
             self._record(name, node)
-            return F.fn("zeros", f"#{self.sh.fresh()}")
+            return F.fn("zeros", f"#{self.sh.tag(node)}")
         if name in IDENT_FUNCS and nargs >= 1:
             return self.ev(node.args[0])
         if meth in IDENT_METHODS:
@@ -1033,10 +1044,11 @@ class GeomEval(AutoEvaluator):
         rec = self._loop_open(st, it)
         items = None if is_unknown(it) else self._const_items(it)
         if items is None:
-            x = F.sym(f"<elem{self.sh.fresh()}>")
+            tg = self.sh.tag(st)
+            x = F.sym(f"<elem {tg}>")
             p = fn_parts(it) if is_rat(it) else None
             if p is not None and p[0] == "call:enumerate" and isinstance(st.target, ast.Tuple) and len(st.target.elts) == 2:
-                x = (F.sym(f"<pos{self.sh.fresh()}>"), x)
+                x = (F.sym(f"<pos {tg}>"), x)
             items = [x]
             rec["generic"] = True
         for x in items:
@@ -1097,6 +1109,7 @@ class GeomEval(AutoEvaluator):
             return
         if isinstance(target, ast.Name) and target.id in self.buffers:
             self.sh.inits.append((target.id, v, st))
+            self.gen[target.id] = self.sh.tag(st)
         if isinstance(target, (ast.Tuple, ast.List)) and not isinstance(v, tuple) and is_rat(v):
             for k, t in enumerate(target.elts):
                 self._assign(t, F.fn("idx", v, F.const(k)), st)
@@ -1109,6 +1122,11 @@ class GeomEval(AutoEvaluator):
 
     def ret(self):
         return self.returns[-1][0] if self.returns else None
+
+
+def base_name(idn):
+    """name of the local behind the identity of a symbol-named array (`loc2#7` -> `loc2`)"""
+    return idn if idn is None or idn.startswith("zeros#") else idn.split("#")[0]
 
 
 def ident(v):
